@@ -572,10 +572,42 @@ func runC13(c *Ctx, out string) {
 			lines = append(lines, "L "+hxl([]string{fmt.Sprintf("LicenseRef-flood-%d", i), "Apache-2.0"}))
 		}
 	}
+	// results that must come out in the same order every time: many terms, few distinct ones
+	for _, n := range []int{9, 17, 33, 40, 65, 120, 300} {
+		ids := []string{"MIT", "ISC", "Zlib", "Apache-2.0", "GPL-2.0-only", "LicenseRef-o1", "LicenseRef-o2", "0BSD", "X11", "curl", "Vim", "Ruby"}
+		p := make([]string, n)
+		for i := range p {
+			p[i] = ids[(i*5+i/7)%len(ids)]
+		}
+		lines = append(lines, "X "+hx(strings.Join(p, " AND ")), "X "+hx(strings.Join(p, " OR ")))
+	}
+	// names that collide under the usual cheap checksums (31-polynomial: "Aa"/"BB"; sums: permutations; xor: doubled bytes)
+	for _, pr := range [][2]string{{"Aa", "BB"}, {"AaAa", "BBBB"}, {"AaBB", "BBAa"}, {"ab", "ba"}, {"abc", "cba"}, {"aab", "aba"}, {"xx", "yy"}, {"a-b", "b-a"}, {"Ab", "BC"}, {"C#", "Bb"}} {
+		a, b := "LicenseRef-"+strings.ReplaceAll(pr[0], "#", "."), "LicenseRef-"+strings.ReplaceAll(pr[1], "#", ".")
+		lines = append(lines, "S "+hx(a)+" "+hxl([]string{b}), "S "+hx(b)+" "+hxl([]string{a}), "X "+hx(a), "X "+hx(b), "S "+hx(a)+" "+hxl([]string{a}), "X "+hx(a+" OR "+b))
+	}
+	// the same strings in different roles (expression / allowed entry / list element), interleaved
+	for _, p := range confusable {
+		a, b := p[0], p[1]
+		lines = append(lines, "S "+hx(a)+" "+hxl([]string{b}), "S "+hx(b)+" "+hxl([]string{a}), "X "+hx(a+" AND "+b), "L "+hxl([]string{a, b, a}),
+			"S "+hx(a+" OR "+b)+" "+hxl([]string{b, a, b}), "X "+hx(b), "S "+hx(a)+" "+hxl([]string{a}))
+	}
+	lines = uniq(lines)
 	calls := make([]*call, len(lines))
 	snapshot := make([]call, len(lines))
+	const sentinel = "SENTINEL-beyond-the-length-of-the-callers-slice"
 	for i, l := range lines {
 		k := decodeCall(l)
+		if k.list != nil {
+			// the caller's slice has spare capacity: an append inside the library would write into the caller's array
+			backing := make([]string, len(k.list), len(k.list)+4)
+			copy(backing, k.list)
+			full := backing[:cap(backing)]
+			for j := len(k.list); j < len(full); j++ {
+				full[j] = sentinel
+			}
+			k.list = backing
+		}
 		calls[i] = &k
 		snapshot[i] = decodeCall(l)
 	}
@@ -654,8 +686,24 @@ func runC13(c *Ctx, out string) {
 	// arguments unchanged
 	var mutated []string
 	for i := range calls {
-		if calls[i].expr != snapshot[i].expr || !reflect.DeepEqual(calls[i].list, snapshot[i].list) {
+		same := calls[i].expr == snapshot[i].expr && len(calls[i].list) == len(snapshot[i].list)
+		for j := range snapshot[i].list {
+			if same && calls[i].list[j] != snapshot[i].list[j] {
+				same = false
+			}
+		}
+		if !same {
 			mutated = append(mutated, lines[i]+" -> "+fmt.Sprint(calls[i].list))
+			continue
+		}
+		if calls[i].list != nil {
+			full := calls[i].list[:cap(calls[i].list)]
+			for j := len(calls[i].list); j < len(full); j++ {
+				if full[j] != sentinel {
+					mutated = append(mutated, lines[i]+" -> spare capacity of the caller's array overwritten with "+full[j])
+					break
+				}
+			}
 		}
 	}
 	cc := newCtx("C13", c.tier, c.seed)
